@@ -1,6 +1,7 @@
 """C06 — binding parameters commutes with evaluating the circuit."""
 import cmath
 import math
+import random
 import re
 from fractions import Fraction
 
@@ -18,8 +19,15 @@ RULE = ("seeded random circuits (built-in / custom factory gates under controlle
         "out and the map edited in between, partial steps on the results), gate cases with the same history on one gate "
         "object, `exotic` (bound variables of Sum / Product / Integral also as map keys and shadowing free symbols, other "
         "real functions, sympy numbers, Python numbers of unusual types, symbols with assumptions, the same operation "
-        "object twice, one custom-gate name with two contents, very small values / values of unusual types, 9-14 symbols on 9-13 qubits)")
+        "object twice, one custom-gate name with two contents, very small values / values of unusual types, 9-14 symbols on 9-13 qubits).  "
+        "LOOK-ALIKE symbols (same printed name, different sympy symbol: real=True / finite=True twins, two Dummies, Dummy('x') vs "
+        "Symbol('_x')) are planted as decoys into ~30% of the cases of every kind (only key of that name in the map / both with "
+        "different values / bare look-alike parameters next to compound expressions of the real symbol / one twin per step) and "
+        "in 8 hand-shaped families (gates, wrapped gates, custom gates with look-alike formal parameters, MultiPhaseOperation, "
+        "circuits, hist, mixed); symbols are identified by an id ('theta', 'theta__real', 't__d1'), never by printed name")
 TRUSTED = [
+    "sympy: a Symbol is identified by name AND assumptions, a Dummy by its index; xreplace / subs match the exact objects (the "
+    "oracle's expected values are computed with xreplace on the exact key objects, never by name)",
     "sympy: Expr.subs(dict) on a map whose values do not mention its keys is simultaneous substitution; "
     "Matrix.subs(simultaneous=True) is simultaneous substitution entry by entry; automatic canonicalisation "
     "(Add/Mul/Pow flattening, numeric folding, cancellation) preserves the value of an expression",
@@ -37,8 +45,7 @@ TRUSTED = [
 ]
 ASSUMPTIONS = [
     "symbol maps whose values do not mention the map's own keys (chained maps make sequential subs order dependent)",
-    "a symbol is identified by its name within one case (symbols may carry the assumption real=True, but no two distinct "
-    "symbols with the same name and different assumptions occur together); values given to real symbols are real",
+    "values given to symbols declared real / finite are real and finite (all points and numeric values are real rationals)",
     "is_hermitian flags of factory gates are truthful (HermOK); custom definitions mention only ordered symbols and are "
     "called with at least as many params as they order (CustomOK)",
     "numeric values are real rationals / floats (MultiPhaseOperation rejects non-real complex numbers: not modelled)",
@@ -79,26 +86,65 @@ def _lib():
     return _LIB[0]
 
 
-_ASSUME = {}   # per-case: symbol name -> sympy assumption keyword ("real"); set by run_impl only
+# Symbols are identified by an ID string, not by their printed name.  An id is the name of a plain symbol ("theta", "_x"), or a
+# LOOK-ALIKE of it: "theta__real" / "theta__finite" = Symbol("theta", real=True / finite=True), "t__d1", "t__d2" = two distinct
+# Dummy("t") (printed "_t").  sympy (and the library) treat all of these as different symbols although they print alike.
+_LOOK = re.compile(r"^([A-Za-z_][A-Za-z_0-9]*?)__(real|finite|d[0-9])$")
+_SYMTAB = {}   # id -> symbol object (one object per id for the whole run: Dummies must stay the same object)
+_SYMID = {}    # symbol object -> id
 _DEFS = {}     # per-case: custom gate definitions shared by all gates of the case (one long-lived object per definition)
 
 
-def _sym(name):
-    """the case's symbol of that name (plain unless the case declares an assumption for it)"""
-    sympy = _lib()[0]
-    a = _ASSUME.get(name)
-    return sympy.Symbol(name, **{a: True}) if a else sympy.Symbol(name)
+def _sym(sid):
+    """the symbol object of that id"""
+    if sid not in _SYMTAB:
+        sympy = _lib()[0]
+        m = _LOOK.match(sid)
+        if m and m.group(2)[0] == "d":
+            obj = sympy.Dummy(m.group(1))
+        elif m:
+            obj = sympy.Symbol(m.group(1), **{m.group(2): True})
+        else:
+            obj = sympy.Symbol(sid)
+        _SYMTAB[sid] = obj
+        _SYMID[obj] = sid
+    return _SYMTAB[sid]
 
 
-def _locals(sympy):
+def _sid(sym):
+    """the id of a symbol object (objects the harness did not create get a fresh id that tells them apart)"""
+    if sym not in _SYMID:
+        sympy = _lib()[0]
+        if isinstance(sym, sympy.Dummy):
+            sid = f"{sym.name}__dx{sym.dummy_index}"
+        elif sym == sympy.Symbol(sym.name):
+            sid = sym.name
+        else:
+            sid = sym.name + "__a_" + "_".join(sorted(k for k, v in sym.assumptions0.items() if v and k != "commutative"))
+        _SYMID[sym] = sid
+        _SYMTAB.setdefault(sid, sym)
+    return _SYMID[sym]
+
+
+def _pname(sid):
+    """the printed name of the symbol with that id (what sorted(..., key=str) in the library sees)"""
+    m = re.match(r"^(.*?)__(real|finite|d[0-9]|dx[0-9]+|a_.*)$", sid)
+    if not m:
+        return sid
+    return ("_" if m.group(2)[0] == "d" else "") + m.group(1)
+
+
+def _locals(sympy, text=""):
     d = {n: _sym(n) for n in SYMS}
-    d.update({n: _sym(n) for n in _ASSUME})
+    for t in re.findall(r"[A-Za-z_][A-Za-z_0-9]*", text):
+        if _LOOK.match(t):
+            d[t] = _sym(t)
     return d
 
 
 def _expr(s):
     sympy, _, _ = _lib()
-    return sympy.sympify(s, locals=_locals(sympy))
+    return sympy.sympify(s, locals=_locals(sympy, s))
 
 
 def _param(ps):
@@ -128,7 +174,7 @@ def _param(ps):
 
 def _custom_spec(gs):
     """(matrix rows, ordering) of a custom gate spec: inline definition or the table"""
-    d = gs if "matrix" in gs else CUSTOM[gs["name"]]
+    d = gs if "matrix" in gs else (CUSTOM.get(gs["name"]) or CUSTOM_X[gs["name"]])
     return d["matrix"], d["ord"]
 
 
@@ -191,7 +237,7 @@ def ast(e):
     """sympy expression (as canonicalised by sympy) -> model expression JSON"""
     sympy, _, _ = _lib()
     if isinstance(e, sympy.Symbol):
-        return {"s": e.name}
+        return {"s": _sid(e)}
     if isinstance(e, sympy.Rational):
         return {"n": _fr(Fraction(int(e.p), int(e.q)))}
     if isinstance(e, sympy.Float):
@@ -239,7 +285,7 @@ def gate_json(g, tolerant=False):
         if isinstance(g.matrix_factory, G.CustomGateMatrixFactory):
             d = g.matrix_factory.gate_definition
             custom = {"matrix": [[ast(d.matrix[i, j]) for j in range(d.matrix.shape[1])] for i in range(d.matrix.shape[0])],
-                      "ord": [s.name for s in d.params_ordering]}
+                      "ord": [_sid(s) for s in d.params_ordering]}
         return {"k": "mf", "name": g.name, "params": [pj(p) for p in g.params], "nq": g.num_qubits,
                 "herm": bool(g.is_hermitian), "custom": custom}
     if isinstance(g, G.ControlledGate):
@@ -273,7 +319,7 @@ def op_json(o, tolerant=False):
 
 
 def map_json(m):
-    return [[k.name, param_json(v)] for k, v in m.items()]
+    return [[_sid(k), param_json(v)] for k, v in m.items()]
 
 
 def strip(j, kinds=True):
@@ -383,19 +429,19 @@ def _dep_names(e):
     if isinstance(e, sympy.Symbol):
         if isinstance(e, sympy.Dummy):
             raise Unsupported("Dummy symbol")
-        return {e.name}
+        return {_sid(e)}
     if isinstance(e, ExprWithLimits):
         s = set(_dep_names(e.function))
         for lim in e.limits:            # innermost first
             if len(lim) == 1:           # indefinite: the variable stays free
                 s |= _dep_names(lim[0])
                 continue
-            s.discard(lim[0].name)
+            s.discard(_sid(lim[0]))
             for bnd in lim[1:]:
                 s |= _dep_names(bnd)
         return s
     if isinstance(e, sympy.Subs):
-        s = set(_dep_names(e.expr)) - {v.name for v in e.variables}
+        s = set(_dep_names(e.expr)) - {_sid(v) for v in e.variables}
         for pnt in e.point:
             s |= _dep_names(pnt)
         return s
@@ -502,9 +548,9 @@ def _occ(params):
 def _observe_ops(ops, pts, want_ast=True):
     """per-operation observables of a list of real operations"""
     _, _, G = _lib()
-    out = {"free_ops": [[s.name for s in o.free_symbols] for o in ops],
+    out = {"free_ops": [[_sid(s) for s in o.free_symbols] for o in ops],
            # the same question asked of the gate itself (GateOperation.free_symbols and Gate.free_symbols are two APIs)
-           "free_gates": [[s.name for s in o.gate.free_symbols] if isinstance(o, G.GateOperation) else None for o in ops],
+           "free_gates": [[_sid(s) for s in o.gate.free_symbols] if isinstance(o, G.GateOperation) else None for o in ops],
            "occ_ops": [_occ(o.params) for o in ops],
            "py": [[not isinstance(p, _lib()[0].Expr) for p in o.params] for o in ops],
            "qubits": [[int(q) for q in o.qubit_indices] for o in ops],
@@ -531,7 +577,7 @@ def _observe_ops(ops, pts, want_ast=True):
 
 def _observe_circuit(c, pts, want_ast=True):
     out = _observe_ops(list(c.operations), pts, want_ast)
-    out["free"] = [s.name for s in c.free_symbols]
+    out["free"] = [_sid(s) for s in c.free_symbols]
     out["n"] = int(c.n_qubits)
     return out
 
@@ -539,14 +585,26 @@ def _observe_circuit(c, pts, want_ast=True):
 def _light(c):
     """the cheap observables of a circuit (used to see that an object did not change behind our back)"""
     ops = list(c.operations)
-    return {"free": [s.name for s in c.free_symbols], "free_ops": [[s.name for s in o.free_symbols] for o in ops],
+    return {"free": [_sid(s) for s in c.free_symbols], "free_ops": [[_sid(s) for s in o.free_symbols] for o in ops],
             "strs": [[str(p) for p in o.params] for o in ops], "n": int(c.n_qubits),
             "qubits": [[int(q) for q in o.qubit_indices] for o in ops], "types": [type(o).__name__ for o in ops]}
 
 
-def _subs_after(p, m):
+def _subst(e, m):
+    """e (expression / matrix) with the symbols that are KEYS of m – the exact sympy objects, whatever they are called –
+    replaced by the values, all at once.  Done with sympy's exact-node replacement (xreplace), which knows no names;
+    expressions with variable binders go through subs(simultaneous) instead (it respects bound variables and matches
+    exact objects too)."""
     sympy = _lib()[0]
-    return p.subs(m, simultaneous=True) if isinstance(p, sympy.Basic) else p
+    if not isinstance(e, (sympy.Basic, sympy.MatrixBase)):
+        return e
+    if e.has(sympy.Sum, sympy.Product, sympy.Integral, sympy.Subs):
+        return e.subs(m, simultaneous=True)
+    return e.xreplace({k: sympy.sympify(v) for k, v in m.items()})
+
+
+def _subs_after(p, m):
+    return _subst(p, m)
 
 
 def _innermost(g):
@@ -572,8 +630,8 @@ def _custom_want(gs):
     definition's matrix with the i-th ordered symbol replaced by the i-th argument, simultaneously"""
     sympy = _lib()[0]
     rows, ordering = _custom_spec(gs)
-    return sympy.Matrix([[_expr(e) for e in row] for row in rows]).subs(
-        {_sym(o): a for o, a in zip(ordering, [_param(p) for p in gs["params"]])}, simultaneous=True)
+    return _subst(sympy.Matrix([[_expr(e) for e in row] for row in rows]),
+                  {_sym(o): a for o, a in zip(ordering, [_param(p) for p in gs["params"]])})
 
 
 def _total_map(m, pt):
@@ -596,7 +654,7 @@ def _unitary_checks(circ, bound, m, pt):
     out = {}
     try:
         U = circ.to_unitary()
-        Ua = U.subs(m, simultaneous=True) if isinstance(U, sympy.MatrixBase) else U
+        Ua = _subst(U, m) if isinstance(U, sympy.MatrixBase) else U
         ref = _mat_num(Ua, pt)
     except (TypeError, ValueError):
         return {"bind": None}
@@ -632,7 +690,7 @@ def _observe_bound(c, circ, ops, m, bound, pts, out, unitary):
         d = dc = None
         if isinstance(o, G.GateOperation) and isinstance(b, G.GateOperation) and okc and c.get("matrix", True):
             try:
-                A = _mat_num(o.gate.matrix.subs(m, simultaneous=True), pt)
+                A = _mat_num(_subst(o.gate.matrix, m), pt)
                 B = _mat_num(b.gate.matrix, pt)
                 d = _mdiff(A, B)
             except (TypeError, ValueError):
@@ -640,7 +698,7 @@ def _observe_bound(c, circ, ops, m, bound, pts, out, unitary):
             spec = _base_spec(c["ops"][k]["g"]) if k < len(c["ops"]) and c["ops"][k].get("op") == "gate" else None
             if spec is not None and spec["k"] == "custom" and _is_custom(b.gate) and pts:
                 try:
-                    want = _custom_want(spec).subs(m, simultaneous=True)
+                    want = _subst(_custom_want(spec), m)
                     dc = _mdiff(_mat_num(want, pt), _mat_num(_innermost(b.gate).matrix, pt))
                 except (TypeError, ValueError):
                     dc = None
@@ -653,7 +711,7 @@ def _observe_bound(c, circ, ops, m, bound, pts, out, unitary):
         ob["unitary"] = u
         ob["unitary_diff"] = u.get("bind")
     # S3: what must stay literally untouched
-    keys = {k.name for k in m}
+    keys = {_sid(k) for k in m}
     unt = []
     for o, b in zip(ops, bops):
         for p, q in zip(o.params, b.params):
@@ -722,8 +780,6 @@ def _poison(circ, bound, m_live):
 
 
 def _prep(c):
-    global _ASSUME
-    _ASSUME = dict(c.get("assume") or {})
     _DEFS.clear()
 
 
@@ -737,7 +793,6 @@ def run_impl(c):
             return _run_hist(c, pts)
         return _run_circuit(c, pts)
     finally:
-        _ASSUME.clear()
         _DEFS.clear()
 
 
@@ -825,7 +880,7 @@ def _run_hist(c, pts):
 def _obs_gate(h, pts):
     sympy, C, G = _lib()
     o = _observe_ops([h(*range(h.num_qubits))], pts, want_ast=False)
-    r = {"free": [s.name for s in h.free_symbols], "free_op": o["free_ops"][0], "occ": o["occ_ops"][0], "py": o["py"][0],
+    r = {"free": [_sid(s) for s in h.free_symbols], "free_op": o["free_ops"][0], "occ": o["occ_ops"][0], "py": o["py"][0],
          "vals": [v[0] for v in o["vals"]], "strs": o["strs"][0], "g_json": gate_json(h, tolerant=True)}
     inner = _innermost(h)
     if _is_custom(h):
@@ -854,7 +909,7 @@ def _gate_bind_obs(c, g, m, pts, out):
         ob["param_diff"] = pd if len(g.params) == len(b.params) else "len"
         if c.get("matrix", True):
             try:
-                ob["matrix_diff"] = _mdiff(_mat_num(g.matrix.subs(m, simultaneous=True), pt), _mat_num(b.matrix, pt))
+                ob["matrix_diff"] = _mdiff(_mat_num(_subst(g.matrix, m), pt), _mat_num(b.matrix, pt))
             except (TypeError, ValueError):
                 ob["matrix_diff"] = None
     return ob, b
@@ -866,7 +921,7 @@ def _run_gate(c, pts):
     if cerr:
         return {"construct": cerr}
     m = _map(c["map"])
-    out = {"free": [s.name for s in g.free_symbols], "occ": _occ(g.params),
+    out = {"free": [_sid(s) for s in g.free_symbols], "occ": _occ(g.params),
            "powexp": _has_powexp(g), "custom_ok": _custom_wellformed(g)}
     try:
         out["g_json"] = gate_json(g)
@@ -903,10 +958,10 @@ def _run_gate(c, pts):
                 m_live[k] = 777
             if b2 is not None:
                 # … and asked again after the map that was passed in has been edited
-                ob["free_again"] = [s.name for s in b2.free_symbols]
+                ob["free_again"] = [_sid(s) for s in b2.free_symbols]
                 ob["strs_again"] = [str(p) for p in b2.params]
             out["more"].append(ob)
-        out["free_after"] = [s.name for s in g.free_symbols]
+        out["free_after"] = [_sid(s) for s in g.free_symbols]
         out["strs_after"] = [str(p) for p in g.params]
     if c.get("new_params") is not None:
         nps = tuple(_param(p) for p in c["new_params"])
@@ -1082,6 +1137,24 @@ def compare(c, out, resp):
     return None
 
 
+def _free_agree(impl_ops, impl_free, model_ops):
+    """implementation and model report the same symbols (ids) per operation, and the implementation's circuit list is a
+    first-appearance enumeration of them (the order among symbols that print alike within one operation is free;
+    the order by printed name is the oracle's business)"""
+    if len(impl_ops) != len(model_ops) or any(sorted(a) != sorted(b) for a, b in zip(impl_ops, model_ops)):
+        return False
+    if impl_free is None:
+        return True
+    seen, k = set(), 0
+    for ops in model_ops:
+        new = {x for x in ops if x not in seen}
+        if set(impl_free[k:k + len(new)]) != new:
+            return False
+        seen |= new
+        k += len(new)
+    return k == len(impl_free)
+
+
 def _free_target(out, tag):
     key = tag.split(":")
     if key[1] in ("before", "bound", "step", "once"):
@@ -1103,12 +1176,12 @@ def _compare_one(c, out, tag, r, pts):
         return _compare_gate(c, out, r, pts, ("bound",), {"bound": out["more"][i], "free": out["free"]}, what=f"bind #{i + 2} on the same gate: ")
     if tag.startswith("free:"):
         o = _free_target(out, tag)
-        if (r["free_ops"], r["free"]) != (o["free_ops"], o["free"]):
+        if not _free_agree(o["free_ops"], o["free"], r["free_ops"]):
             return (f"free symbols of the {tag[5:]} circuit: impl {o['free_ops']} / {o['free']}, "
                     f"model on the same parameter trees {r['free_ops']} / {r['free']}")
         return None
     b = out["before"]
-    if (b["free_ops"], b["free"], b["n"]) != (r["free_ops"], r["free"], r["n"]):
+    if not _free_agree(b["free_ops"], b["free"], r["free_ops"]) or b["n"] != r["n"]:
         return f"before bind: impl free_ops {b['free_ops']} free {b['free']} n {b['n']}; model {r['free_ops']} {r['free']} {r['n']}"
     if tag.startswith("bind:"):
         i = int(tag.split(":")[1])
@@ -1137,7 +1210,7 @@ def _compare_gate(c, out, r, pts, keys, obs, what=""):
 
 
 def _compare_gate_(c, out, r, pts, keys, obs):
-    if out["free"] != r["free"]:
+    if sorted(out["free"]) != sorted(r["free"]):
         return f"gate free symbols: impl {out['free']} model {r['free']}"
     for key in keys:
         if key not in obs:
@@ -1155,7 +1228,7 @@ def _compare_gate_(c, out, r, pts, keys, obs):
             return msg
         if not set(ib["free"]) <= set(mb["free"]):
             return f"{key}: impl free {ib['free']} model {mb['free']}"
-        if key == "replaced" and ib["free"] != mb["free"]:
+        if key == "replaced" and sorted(ib["free"]) != sorted(mb["free"]):
             return f"replaced: impl free {ib['free']} model {mb['free']}"
         if key == "replaced" and (ib.get("op_strs") != ib["strs"] or not ib.get("op_qubits_same")):
             return (f"replaced: GateOperation.replace_params gives parameters {ib.get('op_strs')} (qubits kept: "
@@ -1199,13 +1272,20 @@ def _in_domain(c):
     return True
 
 
+def _free_exact(reported, occ):
+    """the reported list holds exactly the symbols (ids: look-alikes are different symbols) the parameters depend on, once
+    each, ordered by printed name (the order among symbols that print alike is not determined)"""
+    names = [_pname(x) for x in reported]
+    return sorted(reported) == sorted(set(occ)) and names == sorted(names)
+
+
 def _check_free(what, o):
     """S5/S6 on one observed circuit"""
     for a, (rep, occ) in enumerate(zip(o["free_ops"], o["occ_ops"])):
-        if occ is not None and rep != sorted(set(occ)):
+        if occ is not None and not _free_exact(rep, occ):
             return ("free-symbols-op", f"{what}: operation {a} reports free symbols {rep}, its parameters {o['strs'][a]} depend on {occ}")
         fg = (o.get("free_gates") or [None] * (a + 1))[a]
-        if occ is not None and fg is not None and fg != sorted(set(occ)):
+        if occ is not None and fg is not None and not _free_exact(fg, occ):
             return ("free-symbols-op", f"{what}: the gate of operation {a} reports free symbols {fg}, its parameters {o['strs'][a]} depend on {occ}")
     want = _first_appearance(o["free_ops"])
     if o["free"] != want:
@@ -1345,7 +1425,7 @@ def _oracle_gate_bound(what, out, b, ms):
         return ("bind-raises", f"{what}: Gate.bind raised {b['err']}")
     if b["occ"] is not None:
         for key, api in (("free", "bound gate"), ("free_op", "operation of the bound gate")):
-            if b[key] != sorted(set(b["occ"])):
+            if not _free_exact(b[key], b["occ"]):
                 return ("free-symbols-op", f"{what}: {api} reports {b[key]}, its parameters {b['strs']} depend on {b['occ']}")
     pd = b.get("param_diff")
     if pd == "len" or (pd and any(d is not None and d > TOL for d in pd)):
@@ -1353,7 +1433,7 @@ def _oracle_gate_bound(what, out, b, ms):
     d = b.get("matrix_diff")
     if d is not None and not d <= 1e-8:
         return ("bind-matrix", f"{what}: matrix of the bound gate differs from the substituted symbolic matrix by {d}")
-    if "free_again" in b and b["occ"] is not None and (b["free_again"] != sorted(set(b["occ"])) or b["strs_again"] != b["strs"]):
+    if "free_again" in b and b["occ"] is not None and (not _free_exact(b["free_again"], b["occ"]) or b["strs_again"] != b["strs"]):
         return ("bind-aliases-map", f"{what}: after the map that was passed to bind has been edited the bound gate reports free symbols "
                                     f"{b['free_again']} / parameters {b['strs_again']} (before: {b['free']} / {b['strs']})")
     return None
@@ -1362,7 +1442,7 @@ def _oracle_gate_bound(what, out, b, ms):
 def _oracle_gate(c, out):
     if out.get("construct"):
         return None  # the gate of the case cannot be built (e.g. power over free symbols): nothing to bind
-    if out["occ"] is not None and out["free"] != sorted(set(out["occ"])):
+    if out["occ"] is not None and not _free_exact(out["free"], out["occ"]):
         return ("free-symbols-op", f"gate reports free symbols {out['free']}, its parameters depend on {out['occ']}")
     if out.get("custom_diff") is not None and not out["custom_diff"] <= 1e-8:
         return ("custom-positional", f"custom gate matrix differs from the definition's matrix with the ordered symbols "
@@ -1378,7 +1458,7 @@ def _oracle_gate(c, out):
             res = _oracle_gate_bound(f"bind #{i + 2} of {len(seq) + 1} on the same gate object (map {ms})", out, b, ms)
             if res:
                 return res
-        if out["free_after"] != out["free"]:
+        if sorted(out["free_after"]) != sorted(out["free"]):
             return ("history-changes-original", f"the gate that was bound reported free symbols {out['free']}, now {out['free_after']}")
     return None
 
@@ -1576,6 +1656,7 @@ def gen_maps(rng, used, poly, two=False, groups=()):
 
 
 def gen_points(rng, names, n=2):
+    names = list(dict.fromkeys(names))
     pts = []
     for _ in range(n):
         pts.append([[s, _fr(Fraction(rng.choice([1, 2, 3, 5, 7, -1, -2, -3, -5, 4]), rng.choice([1, 2, 3, 5, 7])))]
@@ -1836,8 +1917,8 @@ def gen_exotic_case(rng, big, flavour=None):
         return c
     if flavour == "assume":
         c = gen_circuit_case(rng, big)
-        used = _case_syms(c)
-        c["assume"] = {s: "real" for s in used if rng.random() < 0.7}
+        for sname in [x for x in _case_syms(c) if x in SYMS and rng.random() < 0.7]:
+            rename_symbol(c, sname, sname + "__real", rng)
         c["kind"] = "exotic"
         c["flavour"] = flavour
         return c
@@ -1944,9 +2025,231 @@ def gen_exotic_case(rng, big, flavour=None):
     return c
 
 
+# ---------------------------------------------------------------- look-alike symbols (same printed name, different symbol)
+TWIN_TAGS = ["real", "real", "finite", "d1", "d2"]
+CUSTOM_X = {
+    # formal parameters that print alike: Symbol("theta") and Symbol("theta", real=True)
+    "U5": {"ord": ["theta", "theta__real"], "matrix": [["cos(theta)", "-sin(theta__real)"], ["sin(theta__real)", "cos(theta) + theta__real"]]},
+    "U6": {"ord": ["t__d1", "t__d2"], "matrix": [["t__d1", "t__d2 + 1"], ["t__d1*t__d2", "2"]]},
+}
+
+
+def _retoken(expr, old, new):
+    return re.sub(r"(?<![A-Za-z_0-9])%s(?![A-Za-z_0-9])" % re.escape(old), new, expr)
+
+
+def _param_dicts(c):
+    """the (mutable) parameter specs of a case"""
+    out = []
+
+    def walk(j):
+        if isinstance(j, dict):
+            if isinstance(j.get("params"), list):
+                out.extend(p for p in j["params"] if isinstance(p, dict))
+            for k, v in j.items():
+                if k != "params":
+                    walk(v)
+        elif isinstance(j, list):
+            for v in j:
+                walk(v)
+
+    walk(c.get("ops", c.get("g")))
+    if c.get("new_params"):
+        out.extend(c["new_params"])
+    return out
+
+
+def _map_lists(c):
+    """every map of a case (mutable lists of [key, value])"""
+    out = []
+    for key in ("map", "map2", "extra"):
+        if c.get(key) is not None:
+            out.append(c[key])
+    for key in ("maps", "chain", "more_maps"):
+        out.extend(c.get(key) or [])
+    return out
+
+
+def _primary_maps(c):
+    return list(c["maps"]) if c["kind"] == "hist" else [c["map"]] + list(c.get("more_maps") or [])
+
+
+def _add_points(c, ids, rng):
+    for row in c.get("pts", []):
+        have = {k for k, _ in row}
+        for t in ids:
+            if t not in have:
+                row.append([t, _fr(Fraction(rng.choice([1, 2, 3, 5, 7, -1, -2, -3, -5, 4]), rng.choice([1, 2, 3, 5, 7])))])
+
+
+def rename_symbol(c, old, new, rng):
+    """the case with the symbol `old` replaced by `new` everywhere (parameters, map keys and values)"""
+    for p in _param_dicts(c):
+        if "e" in p:
+            p["e"] = _retoken(p["e"], old, new)
+    for m in _map_lists(c):
+        for kv in m:
+            if kv[0] == old:
+                kv[0] = new
+            if "e" in kv[1]:
+                kv[1] = {"e": _retoken(kv[1]["e"], old, new)}
+    _add_points(c, [new], rng)
+    return c
+
+
+def add_lookalikes(rng, c0):
+    """a copy of the case with LOOK-ALIKE decoys: a symbol t that prints like a symbol s of the case but is a different
+    sympy symbol (other assumptions / a Dummy) is put into the maps (as the only key of that name, or next to s with
+    another value), into the parameters (bare, next to compound expressions of s), or both; one step and several steps"""
+    import copy
+    c = copy.deepcopy(c0)
+    params = [p for p in _param_dicts(c) if "e" in p]
+    used = [s for s in _case_syms(c) if s in SYMS]
+    if not used:
+        return c0
+    bare = [p["e"].strip() for p in params if p["e"].strip() in used]
+    s = rng.choice(bare) if bare and rng.random() < 0.7 else rng.choice(used)
+    t = f"{s}__{rng.choice(TWIN_TAGS)}"
+    mention = [p for p in params if s in _idents(p["e"])]
+    if s not in bare and mention and rng.random() < 0.7:
+        rng.choice(mention)["e"] = s                      # make sure the symbol also occurs as a BARE parameter
+    mode = rng.choice(["decoy-only", "decoy-only", "decoy-both", "twin-param", "twin-param", "twin-steps"])
+    vs, vt = rng.sample(["1/2", "3/4", "-3/2", "2", "3", "5/4", "-1"], 2)
+    val = lambda v: {"py": v} if rng.random() < 0.6 else {"e": v}
+    if mode in ("twin-param", "twin-steps"):
+        mention = [p for p in params if s in _idents(p["e"])]
+        rng.shuffle(mention)
+        n = rng.randrange(1, len(mention)) if len(mention) > 1 else len(mention)
+        for p in mention[:n]:
+            p["e"] = _retoken(p["e"], s, t) if rng.random() < 0.6 else t
+    prim = _primary_maps(c)
+    if mode == "decoy-only":
+        for m in prim:
+            hit = [kv for kv in m if kv[0] == s]
+            for kv in hit:
+                kv[0] = t
+            if not hit:
+                m.append([t, val(vt)])
+    elif mode == "decoy-both":
+        for m in prim:
+            m[:] = [kv for kv in m if kv[0] not in (s, t)] + [[s, val(vs)], [t, val(vt)]]
+            rng.shuffle(m)
+    elif mode == "twin-param":
+        keep = rng.choice([[s], [t], [s, t], []])
+        for m in prim:
+            m[:] = [kv for kv in m if kv[0] not in (s, t)] + [[k, val(vs if k == s else vt)] for k in keep]
+    else:
+        first, second = rng.sample([s, t], 2)
+        for m in prim:
+            m[:] = [kv for kv in m if kv[0] not in (s, t)] + [[first, val(vt)]]
+        if c["kind"] == "hist":
+            c["chain"] = [[[first, val(vt)]], [[second, val(vs)]]]
+        elif c["kind"] != "gate":
+            c["map2"] = [kv for kv in (c.get("map2") or []) if kv[0] not in (s, t)] + [[second, val(vs)]]
+    if "map" in c:
+        # the second step / the superfluous entries never repeat a key of the first map
+        have = {k for k, _ in c["map"]}
+        for key in ("map2", "extra"):
+            if c.get(key):
+                c[key] = [kv for kv in c[key] if kv[0] not in have]
+    _add_points(c, [t], rng)
+    c["look"] = {"base": s, "twin": t, "mode": mode}
+    return c if _in_domain(c) else c0
+
+
+def gen_lookalike_case(rng, i, big=False):
+    c = _gen_lookalike_case(rng, i, big)
+    c["look"] = {"family": i % 8}
+    return c
+
+
+def _gen_lookalike_case(rng, i, big=False):
+    """hand-shaped families around one symbol s and its look-alikes t (t2): gates, wrapped gates, custom gates,
+    MultiPhaseOperation, circuits; the map names only the look-alike / both with different values; one and several steps"""
+    s = rng.choice(SYMS)
+    tags = rng.sample(["real", "finite", "d1", "d2"], 2)
+    t, t2 = f"{s}__{tags[0]}", f"{s}__{tags[1]}"
+    fam = i % 8
+    if fam == 1:
+        tags = [rng.choice(["real", "finite"]), rng.choice(["d1", "d2"])]    # t prints exactly like s, t2 is a Dummy
+        t, t2 = f"{s}__{tags[0]}", f"{s}__{tags[1]}"
+    if fam == 7:
+        s, t, t2 = "_x", "x__d1", "x__d2"          # Dummy("x") prints "_x", like the plain Symbol("_x")
+    v1, v2, v3 = rng.sample(["1/2", "3/4", "-3/2", "2", "3", "5/4", "-1", "1/8"], 3)
+    val = lambda v: {"py": v} if rng.random() < 0.6 else {"e": v}
+    g1 = lambda name, e: {"k": "mf", "name": name, "params": [{"e": e}]}
+    one = lambda: rng.choice(MIX1)
+    other = rng.choice([x for x in SYMS if x != s and x != "x"])
+    c = {"kind": "circuit", "n": rng.choice([None, 3, 4])}
+    if fam in (0, 7):
+        # bare s, a compound of s and a wrapped bare s; the map names only the look-alike (or, sometimes, both)
+        ops = [{"op": "gate", "g": g1(one(), s), "q": [0]}, {"op": "gate", "g": g1(one(), f"2*{s} + {other}"), "q": [1]},
+               {"op": "gate", "g": {"k": "ctrl", "n": 1, "g": g1(rng.choice(MIX2), s)}, "q": [2, 0, 1]},
+               {"op": "gate", "g": {"k": "dag", "g": g1(one(), rng.choice([s, t]))}, "q": [2]}]
+        c["map"] = [[t, val(v1)]] + ([[s, val(v2)]] if rng.random() < 0.3 else [])
+        if rng.random() < 0.5:
+            c["map2"] = [[other, val(v3)]]
+    elif fam == 1:
+        ops = [{"op": "mp", "params": [{"e": t}, {"py": "1/2"}, {"e": f"{s} + {t2}"}, {"e": s}]},
+               {"op": "gate", "g": g1(one(), t2), "q": [0]}]
+        c["map"] = [[rng.choice([s, t, t2]), val(v1)]]
+        if rng.random() < 0.6 and fam != 7:
+            # a look-alike that does not occur in the circuit at all: superfluous
+            t3 = [x for x in ("real", "finite", "d1", "d2") if x not in tags][0]
+            c["extra"] = [[f"{s}__{t3}", val(v2)]]
+    elif fam == 2:
+        # both twins in the maps: partial steps = once
+        ops = [{"op": "gate", "g": g1(one(), s), "q": [0]}, {"op": "gate", "g": g1(one(), t), "q": [0]},
+               {"op": "gate", "g": g1(rng.choice(MIX2), f"2*{s} + {t}"), "q": [1, 0]}]
+        first, second = rng.sample([s, t], 2)
+        c["map"], c["map2"] = [[first, val(v1)]], [[second, val(v2)]]
+        c["unitary"] = True
+    elif fam == 3:
+        g = g1(one(), s)
+        for w in rng.sample(["ctrl", "dag", "ctrl"], rng.choice([1, 2])):
+            g = {"k": "ctrl", "g": g, "n": 1, "raw": rng.random() < 0.3} if w == "ctrl" else {"k": "dag", "g": g, "raw": rng.random() < 0.3}
+        c = {"kind": "gate", "g": g, "map": [[t, val(v1)]], "more_maps": [[[t, val(v1)], [s, val(v2)]], [[s, val(v2)]], [[t2, val(v3)]]],
+             "new_params": [{"e": rng.choice([t, f"{s}*{t}"])}]}
+        c["pts"] = gen_points(rng, SYMS + [s, t, t2])
+        return c
+    elif fam == 4:
+        # custom gates: formal parameters that print alike; arguments that are look-alikes of the formal parameters
+        if rng.random() < 0.5:
+            u = {"k": "custom", "name": "U5", "params": [{"e": rng.choice(["theta__real", other, f"{other} + theta"])}, {"e": rng.choice(["theta", other, "theta__real*2"])}]}
+            keys = ["theta", "theta__real"]
+        else:
+            u = {"k": "custom", "name": "U6", "params": [{"e": rng.choice(["t__d2", other])}, {"e": rng.choice(["t__d1", f"{other}*t__d1"])}]}
+            keys = ["t__d1", "t__d2"]
+        u1 = {"k": "custom", "name": "U1", "params": [{"e": rng.choice(["theta__real", "theta__finite", "2*theta__real + theta"])}]}
+        ops = [{"op": "gate", "g": u, "q": [0]}, {"op": "gate", "g": {"k": "ctrl", "n": 1, "g": u1}, "q": [1, 0]},
+               {"op": "gate", "g": {"k": "dag", "g": dict(u, params=[{"e": keys[1]}, {"e": keys[0]}])}, "q": [1]}]
+        c["n"] = 2
+        c["map"] = [[rng.choice(keys + ["theta"]), val(v1)]]
+        c["map2"] = [[k, val(v2)] for k in keys + [other] if k != c["map"][0][0] and rng.random() < 0.6]
+        c["unitary"] = rng.random() < 0.5
+        c["ops"] = ops
+        c["pts"] = gen_points(rng, SYMS + ["theta__real", "theta__finite", "t__d1", "t__d2"])
+        return c
+    elif fam == 5:
+        ops = [{"op": "gate", "g": g1(one(), s), "q": [0]}, {"op": "gate", "g": {"k": "dag", "g": g1(one(), t)}, "q": [1]},
+               {"op": "mp", "params": [{"e": f"{s}*{t}"}, {"e": t}]}]
+        c = {"kind": "hist", "n": c["n"], "maps": [[[s, val(v1)]], [[t, val(v1)]], [[s, val(v1)], [t, val(v2)]], [[s, val(v1)]]],
+             "poison": rng.random() < 0.5, "chain": [[[t, val(v2)]], [[s, val(v1)]]]}
+    else:
+        ops = [{"op": "gate", "g": g1("RX", s), "q": [0]}, {"op": "gate", "g": g1("RY", t), "q": [0]},
+               {"op": "gate", "g": g1("RZ", f"{s} + {t}"), "q": [0]}, {"op": "gate", "g": {"k": "mf", "name": "H", "params": []}, "q": [1]},
+               {"op": "gate", "g": g1("RX", rng.choice([s, "3/4"])), "q": [0]}]
+        c = {"kind": "mixed", "n": None, "map": [[rng.choice([s, t]), val(v1)]], "unitary": True}
+    c["ops"] = ops
+    c["pts"] = gen_points(rng, SYMS + [s, t, t2])
+    return c
+
+
 def corpus():
     pts = [[[s, _fr(Fraction(i + 2, 3))] for i, s in enumerate(SYMS)], [[s, _fr(Fraction(-(i + 1), 2))] for i, s in enumerate(SYMS)]]
     rx = {"k": "mf", "name": "RX", "params": [{"e": "2*x*y + 1"}]}
+    look = ["theta__real", "theta__finite", "t__d1", "t__d2", "x__d1", "_x"]
+    lpts = [row + [[t, _fr(Fraction(2 * i + 3, 7 - 2 * k))] for i, t in enumerate(look)] for k, row in enumerate(pts)]
     return [
         # the rule of DESIGN §4.21: expression parameter with >= 2 symbols and a partial map
         {"kind": "circuit", "ops": [{"op": "gate", "g": rx, "q": [0]}], "n": None, "map": [["x", {"py": "1/2"}]], "pts": pts, "unitary": True},
@@ -2030,6 +2333,33 @@ def corpus():
                  {"op": "gate", "g": {"k": "custom", "name": "U1", "matrix": CUSTOM["U4"]["matrix"], "ord": CUSTOM["U4"]["ord"],
                                       "params": [{"e": "y"}, {"e": "x"}, {"py": "2"}]}, "q": [1]}],
          "map": [["x", {"py": "3"}]], "map2": [["y", {"e": "1/2"}]]},
+        # --- look-alike symbols: same printed name, different sympy symbol (other assumptions / Dummies)
+        # the map names only Symbol("theta", real=True); the circuit uses Symbol("theta") bare, compound and wrapped
+        {"kind": "circuit", "n": 3, "pts": lpts, "look": {"family": 0},
+         "ops": [{"op": "gate", "g": {"k": "mf", "name": "RX", "params": [{"e": "theta"}]}, "q": [0]},
+                 {"op": "gate", "g": {"k": "mf", "name": "RY", "params": [{"e": "2*theta"}]}, "q": [1]},
+                 {"op": "gate", "g": {"k": "ctrl", "n": 1, "g": {"k": "mf", "name": "XX", "params": [{"e": "theta"}]}}, "q": [2, 0, 1]}],
+         "map": [["theta__real", {"py": "3/4"}]]},
+        # two Dummy("t") in a MultiPhaseOperation
+        {"kind": "circuit", "n": None, "pts": lpts, "look": {"family": 1},
+         "ops": [{"op": "mp", "params": [{"e": "t__d1"}, {"py": "1/2"}]}], "map": [["t__d2", {"py": "1"}]]},
+        # a MultiPhaseOperation whose parameters print alike: theta, theta (real), 2*theta
+        {"kind": "circuit", "n": None, "pts": lpts, "look": {"family": 1},
+         "ops": [{"op": "mp", "params": [{"e": "theta"}, {"e": "theta__real"}, {"py": "1/2"}, {"e": "2*theta"}]}],
+         "map": [["theta__real", {"py": "3/4"}]], "map2": [["theta", {"e": "1/3"}]]},
+        # both twins in the maps: partial steps = once
+        {"kind": "circuit", "n": None, "pts": lpts, "look": {"family": 2}, "unitary": True,
+         "ops": [{"op": "gate", "g": {"k": "mf", "name": "RX", "params": [{"e": "theta"}]}, "q": [0]},
+                 {"op": "gate", "g": {"k": "mf", "name": "RX", "params": [{"e": "theta__real"}]}, "q": [0]}],
+         "map": [["theta__real", {"py": "1/4"}]], "map2": [["theta", {"py": "1/2"}]]},
+        # Dummy("x") prints "_x" like Symbol("_x"); wrapped gate; history on the gate object
+        {"kind": "gate", "g": {"k": "dag", "raw": True, "g": {"k": "ctrl", "n": 1, "g": {"k": "mf", "name": "RZ", "params": [{"e": "_x"}]}}},
+         "map": [["x__d1", {"py": "2"}]], "more_maps": [[["x__d1", {"py": "2"}], ["_x", {"e": "1/3"}]]], "pts": lpts, "look": {"family": 7}},
+        # custom gate whose formal parameters print alike, called with look-alikes of them
+        {"kind": "circuit", "n": 2, "pts": lpts, "look": {"family": 4}, "unitary": True,
+         "ops": [{"op": "gate", "g": {"k": "custom", "name": "U5", "params": [{"e": "theta__real"}, {"e": "theta + y"}]}, "q": [0]},
+                 {"op": "gate", "g": {"k": "ctrl", "n": 1, "g": {"k": "custom", "name": "U1", "params": [{"e": "2*theta__real + theta"}]}}, "q": [1, 0]}],
+         "map": [["theta", {"py": "1/2"}]], "map2": [["theta__real", {"e": "2/3"}]]},
     ]
 
 
@@ -2068,6 +2398,12 @@ def generate(rng, tier):
         cases.append(gen_hist_case(rng, big))
     for i in range(140 if big else 28):
         cases.append(gen_exotic_case(rng, big, FLAVOURS[i % len(FLAVOURS)]))
+    # look-alike symbols: decoys planted into a share of the cases above (every kind), plus hand-shaped families.
+    # (a generator of its own, derived at the end, so that the cases above do not depend on it)
+    lrng = random.Random(f"look:{rng.random()}")
+    cases = [add_lookalikes(lrng, c) if (c.get("flavour") not in ("binder", "pynum") and lrng.random() < 0.3) else c for c in cases]
+    for i in range(64 if big else 16):
+        cases.append(gen_lookalike_case(lrng, i, big))
     return cases
 
 
@@ -2104,7 +2440,7 @@ def _nontrivial_for(c, keys):
 def distribution(cases, outs):
     d = {"circuits": 0, "gates": 0, "ops": 0, "op_kinds": {}, "wrappers": {}, "bind_outcomes": {}, "maps": {"empty": 0, "symbolic_value": 0, "two_step": 0, "extra": 0},
          "unitary_checked": 0, "unitary_routes": {"symbolic": 0, "numeric": 0}, "matrix_checked": 0, "model_skipped": 0, "max_width": 0,
-         "kinds": {}, "history": {"binds": 0, "poisoned": 0, "chains": 0}}
+         "kinds": {}, "history": {"binds": 0, "poisoned": 0, "chains": 0}, "lookalikes": {}}
 
     def wr(g):
         while "g" in g:
@@ -2127,6 +2463,9 @@ def distribution(cases, outs):
                     d["op_kinds"][op["op"]] = d["op_kinds"].get(op["op"], 0) + 1
         key = c["kind"] + (":" + c["flavour"] if c.get("flavour") else "") + ("+history" if c.get("more_maps") else "")
         d["kinds"][key] = d["kinds"].get(key, 0) + 1
+        if c.get("look"):
+            lk = "family" if "family" in c["look"] else c["look"]["mode"]
+            d["lookalikes"][lk] = d["lookalikes"].get(lk, 0) + 1
         if c["kind"] == "hist":
             d["history"]["binds"] += len(c["maps"])
             d["history"]["poisoned"] += 1 if c.get("poison") else 0
